@@ -142,3 +142,63 @@ Theorem C14_router_exact_dnssl_refuted : exists p d r, bytes_ok p /\ ra_decode p
   learn1 p = Some r /\ known_dnssl_multiple d = true /\ ~ dnssl_exact r d.
 Proof. exact dnssl_refuted. Qed.
 Print Assumptions C14_router_exact_dnssl_refuted.
+
+(* ------------------------------------------------------------------ *)
+(* C14_router_persistent.  "Records exactly" holds for as long as the entry lives: after ANY
+   history, a processed RA p from src, then ANY later history without another RA from src
+   (StartHunt/StopHunt/Close, loop passes, RAs of other routers, any other ICMPv6 message through
+   the same receive buffer) the entry of src still records exactly the decoding of p.  In the model
+   every router field is an owned value; that the implementation retains copies and no reference
+   into the receive buffer is what the correspondence run checks (one shared buffer per handler,
+   overwritten after every packet, whole table re-read after every packet). *)
+Theorem C14_router_persistent : forall c rep evs1 src eth p d evs2,
+  bytes_ok p -> ra_decode p = Some d ->
+  let st := snd (run c (init rep) evs1) in
+  processed_ra st -> Forall (not_ra_from src) evs2 ->
+  let fin := snd (run c (fst (step c st (RxRA src eth p true))) evs2) in
+  exists r, rt_find (routers fin) src = Some r /\ entry_exact r d.
+Proof. exact router_persistent. Qed.
+Print Assumptions C14_router_persistent.
+
+Theorem C14_router_untouched : forall c st e k, not_ra_from k e ->
+  rt_find (routers (fst (step c st e))) k = rt_find (routers st) k.
+Proof. exact step_keeps_router. Qed.
+Print Assumptions C14_router_untouched.
+
+(* ------------------------------------------------------------------ *)
+(* Malformed input, for every byte string of at least 16 bytes.
+   (a) the option area cannot be split into options (truncated or overrunning option, option of
+       length zero, trailing byte): the advertisement is rejected; *)
+Theorem C14_options_unsplittable : forall p, (16 <= List.length p)%nat ->
+  split_tlv (List.length (skipn 16 p)) (skipn 16 p) = None -> ra_options p = Err EOther.
+Proof. exact ra_options_unsplittable. Qed.
+Print Assumptions C14_options_unsplittable.
+
+(* (b) it can be split: the library computes exactly the LENIENT reference decoder
+       (Spec/RFC4861.v): a link-layer address option of length <> 1 or a prefix option of length <> 4
+       or prefix length > 128 rejects the advertisement; every other malformed known option (MTU,
+       route information incl. the reserved preference, RDNSS) is skipped without a trace.
+       Partial: DNSSL options are assumed well formed (their malformed variants are compared with
+       the implementation by the correspondence run only). *)
+Theorem C14_options_lenient_partial : forall p tl,
+  bytes_ok p -> (16 <= List.length p)%nat ->
+  split_tlv (List.length (skipn 16 p)) (skipn 16 p) = Some tl -> dnssl_wf tl ->
+  ra_options p = match ra_decode_lenient p with
+                 | Some d => Ok (fold_left apply1 (ra_opts d) opts_zero)
+                 | None => Err EOther
+                 end.
+Proof. exact ra_options_lenient. Qed.
+Print Assumptions C14_options_lenient_partial.
+
+Theorem C14_lenient_extends_strict : forall p d, ra_decode p = Some d -> ra_decode_lenient p = Some d.
+Proof. exact ra_decode_lenient_extends. Qed.
+Print Assumptions C14_lenient_extends_strict.
+
+Example C14_lenient_nonvacuous :
+  (exists tl d, split_tlv (List.length (skipn 16 wit_mal)) (skipn 16 wit_mal) = Some tl /\ dnssl_wf tl /\
+     ra_decode wit_mal = None /\ ra_decode_lenient wit_mal = Some d /\ List.length (ra_opts d) = 2%nat /\
+     ra_options wit_mal = Ok (fold_left apply1 (ra_opts d) opts_zero)) /\
+  (exists tl, split_tlv (List.length (skipn 16 wit_rej)) (skipn 16 wit_rej) = Some tl /\ dnssl_wf tl /\
+     ra_decode_lenient wit_rej = None /\ ra_options wit_rej = Err EOther).
+Proof. exact lenient_nonvacuous. Qed.
+Print Assumptions C14_lenient_nonvacuous.
